@@ -403,6 +403,13 @@ UNARY = {
     "lgamma": (_np(_ref_lgamma), lambda x: x > 0 and x != INF, [[1.0, 0.5, 2.0, 3.0, 10.5, TINY, 1e10]]),
     "detach": (_np(lambda x: x), lambda x: True, [FULL]),
     "isnan": (_np(np.isnan), lambda x: True, [FULL]),
+    "clamp[0,1]": (_np(lambda x: np.clip(x, 0.0, 1.0)), lambda x: True, [FULL]),
+    "clamp[-1,]": (_np(lambda x: np.clip(x, -1.0, None)), lambda x: True, [FULL]),
+}
+# ops with parameters: how the table name is called
+UNARY_CALL = {
+    "clamp[0,1]": lambda x: ops.clamp(x, 0.0, 1.0),
+    "clamp[-1,]": lambda x: ops.clamp(x, -1.0, None),
 }
 
 
@@ -449,7 +456,7 @@ SKIPPED_OPS_REASON = "not element-wise scalar functions (reductions are checked 
 
 
 def check_agree_unary(v, n):
-    op = getattr(ops, n)
+    op = UNARY_CALL.get(n) or getattr(ops, n)
     ref, dom, grids = UNARY[n]
     for grid in grids:
         vals = [x for x in grid if dom(x)]
@@ -459,15 +466,22 @@ def check_agree_unary(v, n):
             if has_nan(want):
                 continue  # undefined: outside the op's domain
             good.append(x)
+            raised, returned = [], []
             for rn, xr in reps(x):
                 try:
                     r = call(op, xr)
                 except Exception as e:
                     v.declined += 1
+                    raised.append((rn, type(e).__name__))
                     continue
+                returned.append(rn)
                 v.ev("scalar_0d_array_agree", (n, name(x), rn), nontrivial=True)
                 if not close(r, want) or has_nan(r):
                     v.fail("scalar_0d_array_agree", "%s(%s) as %s = %r, reference %r" % (n, name(x), rn, r, want), ["agree", n, rn, "x=" + name(x)])
+            if raised and returned:
+                # inside the op's domain one representation answers and another raises: not "the same answer"
+                v.ev("scalar_0d_array_agree", (n, name(x), "raises-on-some"), nontrivial=True)
+                v.fail("scalar_0d_array_agree", "%s(%s) raises %s as %s but returns a value as %s (reference %r)" % (n, name(x), raised[0][1], raised[0][0], returned, want), ["agree", n, "raises-on-some-representation", "raises:" + raised[0][1], "as:" + raised[0][0], "x=" + name(x)])
         if not good:
             continue
         for shape in SHAPES[1:]:
@@ -499,17 +513,23 @@ def check_agree_binary(v, n):
             if has_nan(want):
                 continue
             pairs.append((x, y))
+            raised, returned = [], []
             for (rx, xr), (ry, yr) in itertools.product(reps(x), reps(y)):
                 if "npscalar" in (rx, ry) and rx != ry:
                     continue
                 try:
                     r = call(op, xr, yr)
-                except Exception:
+                except Exception as e:
                     v.declined += 1
+                    raised.append((rx + "-" + ry, type(e).__name__))
                     continue
+                returned.append(rx + "-" + ry)
                 v.ev("scalar_0d_array_agree", (n, name(x), name(y), rx, ry))
                 if not close(r, want) or has_nan(r):
                     v.fail("scalar_0d_array_agree", "%s(%s, %s) as (%s,%s) = %r, reference %r" % (n, name(x), name(y), rx, ry, r, want), ["agree", n, rx + "-" + ry, "x=" + name(x), "y=" + name(y)])
+            if raised and returned:
+                v.ev("scalar_0d_array_agree", (n, name(x), name(y), "raises-on-some"))
+                v.fail("scalar_0d_array_agree", "%s(%s, %s) raises %s as %s but returns a value as %s (reference %r)" % (n, name(x), name(y), raised[0][1], raised[0][0], returned, want), ["agree", n, "raises-on-some-representation", "raises:" + raised[0][1], "as:" + raised[0][0], "x=" + name(x), "y=" + name(y)])
         if not pairs:
             continue
         for shape in SHAPES[1:]:
